@@ -100,6 +100,30 @@ func corpus() []history {
 			}
 		}
 	}
+	// parallel and nested routes with amounts the weights do not divide: nothing may stay in the module
+	// account, in any denom, at any point of the packet's life
+	for rt := 1; rt <= 5; rt++ {
+		rt := rt
+		in := func(fw *legSpec) pktSpec {
+			p := exIn(fw)
+			p.Route, p.Amount = rt, 100001
+			return p
+		}
+		out := func(ch, fw *legSpec) pktSpec {
+			p := exOut(ch, fw)
+			p.Route, p.Amount, p.Arg = rt, 100001, 33333
+			return p
+		}
+		hs = append(hs,
+			history{Name: fmt.Sprintf("corpus:route%d-exact-in-odd", rt), Wired: true, Pkts: []pktSpec{in(nil)}, Ops: []op{r0}, Drain: true},
+			history{Name: fmt.Sprintf("corpus:route%d-exact-in-odd-forward-ok", rt), Wired: true, Pkts: []pktSpec{in(leg(2, 2))}, Ops: []op{r0}, Drain: true},
+			history{Name: fmt.Sprintf("corpus:route%d-exact-in-odd-forward-timeout", rt), Wired: true, Pkts: []pktSpec{in(leg(0, 2))}, Ops: []op{r0}, Drain: true, DrainKinds: []string{"timeout"}},
+			history{Name: fmt.Sprintf("corpus:route%d-exact-out-odd", rt), Wired: true, Pkts: []pktSpec{out(nil, nil)}, Ops: []op{r0}, Drain: true},
+			history{Name: fmt.Sprintf("corpus:route%d-exact-out-odd-change-forward", rt), Wired: true, Pkts: []pktSpec{out(leg(1, 2), leg(3, 2))},
+				Ops: []op{r0, {0, 1, "err"}, {0, 0, "ok"}}, Drain: true},
+			history{Name: fmt.Sprintf("corpus:route%d-exact-out-odd-change-timeout", rt), Wired: true, Pkts: []pktSpec{out(leg(1, 2), nil)},
+				Ops: []op{r0}, Drain: true, DrainKinds: []string{"timeout"}})
+	}
 	// the same shape with sequences that differ
 	hs = append(hs, history{Name: "corpus:misaligned-ch1-ch2", Wired: true, Pkts: []pktSpec{exOut(leg(1, 2), leg(2, 2))},
 		Ops: []op{r0, {0, 0, "ok"}, {0, 1, "err"}}, Drain: true})
@@ -139,6 +163,11 @@ func genPkt(r *emit.Rand) pktSpec {
 	p.Amount = emit.Pick(r, int64(1), 100, 1000, 5000, 99999, 1000000, 1000000, 123456789, 1000000000000)
 	if r.Chance(1, 3) {
 		p.Amount = 10000 + r.Int63n(10000000)
+	}
+	p.Route = emit.Pick(r, 0, 0, 0, 1, 1, 2, 3, 4, 4, 5)
+	if p.Route != 0 && r.Chance(2, 3) {
+		// amounts the weights do not divide
+		p.Amount = emit.Pick(r, int64(100001), 99999, 1000003, 7777777, 123456789, 50021) + int64(r.Intn(3))
 	}
 	malformed := r.Chance(1, 5)
 	if malformed {
@@ -266,6 +295,7 @@ func runAll(seed int64, n int, outDir string) error {
 					}
 				}
 				st.Count(fmt.Sprintf("packet:swap-accepted-%d-legs", nl))
+				st.Count("route:" + []string{"pool", "parallel-1:1", "parallel-1:1:1", "parallel-0.3:0.7", "parallel-2:1(pool,series)", "series"}[p.Spec.Route])
 				if c, f := p.Legs[0], p.Legs[1]; c != nil && f != nil && c.First[0] != f.First[0] {
 					if c.First[1] == f.First[1] {
 						st.Count("legs:two-channels-same-sequence")
@@ -286,6 +316,7 @@ func runAll(seed int64, n int, outDir string) error {
 							chans = "2ch-seq-equal"
 						}
 					}
+					kind += fmt.Sprintf("-route%d", p.Spec.Route)
 					st.Nontriv(fmt.Sprintf("%s/%s/%s/%d/%s", kind, strings.Join(shape, "+"), chans, len(rn.pk), legOrder(rn, p)))
 				}
 			}
